@@ -1,6 +1,6 @@
 SPECIFICATION Spec
 CONSTANTS TokBoost = 0
   SubjBoost = 0
-  Fams = {"core", "brk", "cls", "clsall", "nocase", "utf", "extoff", "extop", "extmix", "extbr", "fname", "fnbrk", "fncase", "fnext", "path"}
+  Fams = {"core", "unanch", "brk", "cls", "clsall", "nocase", "utf", "extoff", "extop", "extmix", "extbr", "fname", "fnbrk", "fncase", "fnext", "path"}
 INVARIANTS ModeIrrelevance LiteralLaw EmitInv
 VIEW StateKey
